@@ -49,7 +49,7 @@ def strategy(tier, shard, nshards):
 
 def budget(tier):
     if tier == "quick":
-        return {"examples": 9000, "shards": 16, "guard_s": 600, "case_guard_s": 20}
+        return {"examples": 6000, "shards": 16, "guard_s": 600, "case_guard_s": 20}
     return {"examples": 300000, "shards": 16, "guard_s": 7200, "case_guard_s": 20}
 
 
@@ -436,16 +436,26 @@ def judge(trace):
             return out, "bad", obs
         j = Judge(trace)
         compare(j, cmd, ast, captured)
-        out.extend(j.out)
         obs.extend(j.obs)
-        left = cmd.input
-        if left != "" and not j.explained_leftover:
-            if cause == "brace-atom" and isinstance(left, str) and left.startswith("}"):
-                out.append(("C08.brace-atom", "unconsumed", f"{text[:160]!r}: '}}' is an ATOM-CHAR (RFC 3501 atom-specials do not contain it) but the atom was cut there; left unparsed: {left[:40]!r}"))
-            elif cause in CAUSES:
-                out.append((f"C08.{cause}", "unconsumed", f"valid sentence {text[:160]!r} accepted but {left[:40]!r} left unparsed"))
+        left = cmd.input if isinstance(cmd.input, str) else repr(cmd.input)
+        found = list(j.out)
+        if cause == "brace-atom" and left.startswith("}"):
+            # the atom was cut at '}': every field mismatch of this sentence is that one cause
+            found = [("C08.brace-atom", "misparsed", d) if c == "C08.ast" else (c, s, d) for c, s, d in found]
+            if not found:
+                found.append(("C08.brace-atom", "misparsed", f"{text[:160]!r}: '}}' is an ATOM-CHAR (RFC 3501 atom-specials do not contain it) but the atom was cut there; left unparsed: {left[:40]!r}"))
+        elif left != "" and not j.explained_leftover:
+            if cause in CAUSES:
+                found.append((f"C08.{cause}", "misparsed", f"valid sentence {text[:160]!r} accepted but {left[:40]!r} left unparsed"))
             else:
-                out.append(("C08.unconsumed", ast["command"], f"valid sentence {text[:160]!r} accepted but {left[:40]!r} left unparsed"))
+                found.append(("C08.unconsumed", ast["command"], f"valid sentence {text[:160]!r} accepted but {left[:40]!r} left unparsed"))
+        seen = set()
+        for c, s, d in found:
+            if c != "C08.ast" and c[4:] in CAUSES and s in ("value", "unconsumed"):
+                s = "misparsed"
+            if (c, s) not in seen:
+                seen.add((c, s))
+                out.append((c, s, d))
         return out, "ok", obs
     if kind == "junk":
         if outcome == "ok":
